@@ -123,6 +123,37 @@ theorem rclear_acc (k : Nat) (hA : P.rclear k) (h : Tr P s0 s) : Tr P s0 (s.modS
   exact ⟨rfl, rfl, fun h => h, rfl, by simp [setRecvF, recvEff, hk], trivial⟩
 grind_pattern rclear_acc => Tr P s0 (s.modStream k (setRecvF []))
 
+/-- permissions for every entry at once (as named propositions: `grind` instantiates them through the
+    patterns below, which is more reliable than local `∀` hypotheses) -/
+def CutAll (P : Perm) : Prop := ∀ k, P.cut k
+def RpushAll (P : Perm) : Prop := ∀ k, P.rpush k
+def RclearAll (P : Perm) : Prop := ∀ k, P.rclear k
+theorem cut_of_all {P : Perm} (k : Nat) (h : CutAll P) : P.cut k := h k
+grind_pattern cut_of_all => P.cut k
+theorem rpush_of_all {P : Perm} (k : Nat) (h : RpushAll P) : P.rpush k := h k
+grind_pattern rpush_of_all => P.rpush k
+theorem rclear_of_all {P : Perm} (k : Nat) (h : RclearAll P) : P.rclear k := h k
+grind_pattern rclear_of_all => P.rclear k
+
+/-- the header list of the `431 Request Header Fields Too Large` answer that `recv_headers` queues by itself -/
+def f431 : List Hpack.Field := [{ h := (Hpack.pStatus, Http.str "431"), sensitive := false, nameless := false }]
+theorem f431_fold : ([{ h := (Hpack.pStatus, Http.str "431"), sensitive := false, nameless := false }] : List Hpack.Field) = f431 := rfl
+def Push431 (P : Perm) : Prop := ∀ k, P.ok (.push k (.headers true f431))
+theorem push431_of {P : Perm} (k : Nat) (h : Push431 P) : P.ok (.push k (.headers true f431)) := h k
+grind_pattern push431_of => P.ok (.push k (.headers true f431))
+
+/-- a request head may be queued on any (new) entry -/
+def PushHeadAll (P : Perm) (eos : Bool) (f : List Hpack.Field) : Prop := ∀ k, P.ok (.push k (.headers eos f))
+theorem pushHead_of {P : Perm} {eos : Bool} {f : List Hpack.Field} (k : Nat) (h : PushHeadAll P eos f) :
+    P.ok (.push k (.headers eos f)) := h k
+grind_pattern pushHead_of => P.ok (.push k (.headers eos f)), PushHeadAll P eos f
+
+/-- a PUSH_PROMISE for any promised stream may be queued on entry `k` -/
+def PushPromiseAll (P : Perm) (k : Nat) (f : List Hpack.Field) : Prop := ∀ pk pid, P.ok (.push k (.pushPromise pk pid f))
+theorem pushPromise_of {P : Perm} {k : Nat} {f : List Hpack.Field} (pk pid : Nat) (h : PushPromiseAll P k f) :
+    P.ok (.push k (.pushPromise pk pid f)) := h pk pid
+grind_pattern pushPromise_of => P.ok (.push k (.pushPromise pk pid f)), PushPromiseAll P k f
+
 /-- an entry is closed, or does not exist -/
 def ClosedAt (s : Streams) (k : Nat) : Prop := ∀ a, s.store.get? k = some a → a.state.isClosed = true
 
